@@ -263,6 +263,15 @@ void ys_compiler_set_atom_table(ys_compiler* yc, const void* table, int entries,
 
 void ys_compiler_set_strict_escape(ys_compiler* yc, int on) { yc->c->strict_escape = on != 0; }
 
+/* the name under which add_file / add_fd sources are reported (and relative to which `include`
+   paths are resolved); callers may set a path with directories */
+static char g_source_name[2048] = "";
+void ys_set_source_name(const char* name)
+{
+  strncpy(g_source_name, name ? name : "", sizeof(g_source_name) - 1);
+  g_source_name[sizeof(g_source_name) - 1] = 0;
+}
+
 int ys_compiler_add(ys_compiler* yc, int how, const char* src, size_t len, const char* ns)
 {
   switch (how)
@@ -278,7 +287,7 @@ int ys_compiler_add(ys_compiler* yc, int how, const char* src, size_t len, const
       return yr_compiler_add_bytes(yc->c, src, len, ns);
     fwrite(src, 1, len, f);
     rewind(f);
-    int r = yr_compiler_add_file(yc->c, f, ns, "memfile");
+    int r = yr_compiler_add_file(yc->c, f, ns, g_source_name[0] ? g_source_name : "memfile");
     fclose(f);
     return r;
   }
@@ -296,7 +305,7 @@ int ys_compiler_add(ys_compiler* yc, int how, const char* src, size_t len, const
       off += w;
     }
     lseek(fd, 0, SEEK_SET);
-    int r = yr_compiler_add_fd(yc->c, fd, ns, "memfd");
+    int r = yr_compiler_add_fd(yc->c, fd, ns, g_source_name[0] ? g_source_name : "memfd");
     close(fd);
     return r;
   }
